@@ -543,12 +543,17 @@ def slot_ok(sg, it, ring_node, idx_store):
     if it is None:
         return False, 'ring store has no index'
     t = strip_conv(it)
-    if not (t[0] == 'bin' and t[1] == 'BitAnd'):
-        return False, 'ring slot index is not (trusted index & (SIZE-1)): %s' % fmt(t)
+    if not (t[0] == 'bin' and t[1] in ('BitAnd', 'Rem')):
+        return False, 'ring slot index is not (trusted index & (SIZE-1)) / (trusted index % SIZE): ' + fmt(t)
     a, b = t[2], t[3]
-    mask, ctr = (b, a) if a[0] == 'load' else (a, b)
-    mk = strip_conv(mask)
-    mask_ok = mk[0] == 'bin' and mk[1] == 'Sub' and fold_const(mk[3]) == 1 and 'SIZE' in fmt(mk[2])
+    if t[1] == 'Rem':
+        mask, ctr = b, strip_conv(a)
+        mk = strip_conv(mask)
+        mask_ok = mk[0] != 'bin' and 'SIZE' in fmt(mk)      # index % SIZE (SIZE is a power of two by the queue's static assertion)
+    else:
+        mask, ctr = (b, a) if a[0] == 'load' else (a, b)
+        mk = strip_conv(mask)
+        mask_ok = mk[0] == 'bin' and mk[1] == 'Sub' and fold_const(mk[3]) == 1 and 'SIZE' in fmt(mk[2])
     # the counter must be the same trusted field whose value is later stored to avail.idx
     v = idx_store.value
     ctr_ok = ctr[0] == 'load' and isinstance(v, tuple) and v[0] == 'load' and v[1] == ctr[1]
